@@ -17,6 +17,7 @@ package sniproxy
 
 import (
 	"context"
+	"io"
 	"net"
 	"sync"
 
@@ -41,12 +42,23 @@ func (b *connMailBox) cleanUp() {
 	b.office.remove(b.key)
 }
 
-func (b *connMailBox) receive(ctx context.Context) (net.Conn, error) {
+// receive waits for the side connection. gone is closed when the endpoint's
+// control connection is gone: no side connection will be delivered any more.
+func (b *connMailBox) receive(
+	ctx context.Context, gone <-chan struct{},
+) (net.Conn, error) {
 	select {
 	case <-ctx.Done():
 		return nil, ctx.Err()
 	case <-b.closed:
 		return nil, errcode.TimeOutf("closed")
+	case <-gone:
+		select {
+		case conn := <-b.ch: // delivered just before
+			return conn, nil
+		default:
+		}
+		return nil, io.ErrUnexpectedEOF
 	case conn := <-b.ch:
 		return conn, nil
 	}
